@@ -184,6 +184,7 @@ def main():
     ap.add_argument("--workers", type=int, default=4)
     ap.add_argument("--jobs", type=int, default=4)
     ap.add_argument("--tier", default="quick")
+    ap.add_argument("--slot0", type=int, default=0, help="first scratch-worktree slot (so that two sweeps can run side by side)")
     ap.add_argument("--files", nargs="*", default=["exponax/*.py", "exponax/*/*.py", "exponax/*/*/*.py"])
     ap.add_argument("--list", action="store_true")
     a = ap.parse_args()
@@ -201,7 +202,7 @@ def main():
         done = {json.loads(l)["index"] for l in open(a.out)}
     todo = [(i, s) for i, s in chosen if i not in done]
     with cf.ThreadPoolExecutor(a.workers) as ex, open(a.out, "a") as fh:
-        slots = list(range(a.workers))
+        slots = list(range(a.slot0, a.slot0 + a.workers))
         import queue
 
         q = queue.Queue()
@@ -219,7 +220,7 @@ def main():
             fh.write(json.dumps(r) + "\n")
             fh.flush()
             print(r["index"], r["file"], r["line"], r["kind"], "->", r["detected_by"] or "SURVIVED", r.get("signature", ""), flush=True)
-    for s in range(a.workers):
+    for s in range(a.slot0, a.slot0 + a.workers):
         subprocess.run(["git", "-C", REPO, "worktree", "remove", "--force", f"{SCRATCH}/ms_{s}"], capture_output=True)
 
 
